@@ -443,6 +443,8 @@ def events_for(ab, rng, horizon, adversarial=True):
     if k == "prefix" and ab[1][0] == "prefix_from":
         # a prefix recorded from a sub-additive source must cover every sequence of that source (C12: dominates everywhere)
         return events_for(ab[1][1], rng, horizon, adversarial)
+    if k in ("curve", "extrap") and ab[1][0] == "from_trace":
+        return [t - ab[1][1][0] for t in ab[1][1] if t - ab[1][1][0] < horizon]      # the recorded trace itself (shifted to start at 0)
     if k in ("curve", "extrap"):
         d = ab[1][1]
         if ab[1][0] == "fromiter":          # Curve::from_iter takes the running maximum of the given distances
@@ -507,7 +509,16 @@ class C10(Prop):
         # arrival models obtained through the other public constructors: Curve::from_iter (running maximum of arbitrary distances)
         # and ArrivalCurvePrefix::from_arrival_bound_until of a periodic/sporadic source (horizons on and off the source's steps)
         for _ in range(ctx.scale(80, 800)):
-            if rng.random() < 0.5:
+            r_ = rng.random()
+            if r_ < 0.3:
+                # a curve inferred from a trace whose tightest clustering comes late: the trace must be admissible for its own curve
+                for _t in range(30):
+                    tr = families.gen_trace(rng); K = rng.randint(2, 4)
+                    tr = [t + 60 * i for i, t in enumerate(tr[:3])] + [tr[2] + 180 + x for x in tr[3:]] if len(tr) > 4 else tr
+                    tr = sorted(tr); d_ = gen.dmin_of_trace(tr, K)
+                    if d_ and d_[-1] > 0: break
+                ab = ["curve", ["from_trace", tr, K]]
+            elif r_ < 0.6:
                 v = [rng.choice([0, 0, rng.randint(0, 12)]) for _ in range(rng.randint(1, 6))]
                 if max(v) == 0: v[-1] = rng.randint(1, 9)
                 v[-1] = max(v)
@@ -709,6 +720,11 @@ class C14(Prop):
         qs = []; meta = []
         for _ in range(ctx.scale(150, 2000)):
             cm = gen.gen_cm(rng, False, positive=False)
+            if rng.random() < 0.15:      # wcet::Curve::from_iter repairs non-monotone input by a running maximum: dips of several entries
+                v = sorted(rng.randint(1, 30) for _ in range(rng.randint(3, 7)))
+                i0 = rng.randrange(1, len(v)); 
+                for j in range(i0, min(len(v), i0 + rng.randint(1, 3))): v[j] = rng.randint(0, v[i0 - 1])
+                cm = ["ccurve", ["cfromiter", v]]
             if rng.random() < 0.2: cm = ["default_cm", cm]       # a user-defined model relying on the trait's provided methods
             N = rng.randint(1, 30)
             base = len(qs)
@@ -1182,6 +1198,13 @@ class C19(Prop):
             pair("fp_lp(last=C)=fp_np", ["fp_lp", ab, C, C, B, hp, limit], ["fp_np", ab, C, B, hp, limit])
             D = rng.randint(1, 120)
             od = [rng.choice([D, rng.randint(1, 150)]) for _ in hp]
+            if rng.random() < 0.25:
+                # a heavy blocker with a long deadline plus an interferer with a short period and deadline: releases of the
+                # interferer fall INTO the blocking interval, so the blocking term must stay inside the fixed-point equation
+                C = rng.randint(1, 4); ab = ["periodic", rng.randint(15, 40)]; tua = ["rbf", ab, ["scalar", C]]; D = rng.randint(6, 14)
+                hp = [["rbf", ["periodic", rng.randint(40, 90)], ["scalar", rng.randint(6, 14)]], ["rbf", ["periodic", rng.randint(4, 9)], ["scalar", rng.randint(1, 2)]]]
+                od = [D + rng.randint(15, 50), rng.randint(2, D)]
+                limit = rng.randint(100, 400)
             pair("edf_lp(segs=1)=edf_fnp", ["edf_lp", [ab, C, D, 1], [[o, d, 1] for o, d in zip(hp, od)], limit], ["edf_fnp", [tua, D], [[o, d, 1] for o, d in zip(hp, od)], limit])
             pair("edf_fnp(segs=1)=edf_fp", ["edf_fnp", [tua, D], [[o, d, 1] for o, d in zip(hp, od)], limit], ["edf_fp", [tua, D], [[o, d] for o, d in zip(hp, od)], limit])
             pair("edf_lp(segs=C)=edf_np", ["edf_lp", [ab, C, D, C], [[o, d, o[2][1]] for o, d in zip(hp, od)], limit], ["edf_np", [ab, C, D], [[o[1], o[2][1], d] for o, d in zip(hp, od)], limit])
@@ -1189,13 +1212,21 @@ class C19(Prop):
         nmeta = []
         for _ in range(ctx.scale(60, 1200)):
             ts = gen.gen_taskset(rng, rng.randint(1, 4), rng.choice([0.3, 0.6, 0.9, 1.1]), families.AB_EXACT, True, True)
-            D = rng.randint(1, 100); limit = families.pick_limit(rng)
+            D = rng.randint(1, 100); limit = families.pick_limit(rng) if rng.random() < 0.5 else rng.randint(1, 30)    # tight limits: Ok/Err agreement
             base = len(qs)
             for i, t in enumerate(ts):
                 qs.append(["edf_np", [t[1], t[2][1], D], [[o[1], o[2][1], D] for j, o in enumerate(ts) if j != i], limit])
             qs.append(["fifo", ["agg", ts], limit])
             qs.append(["es", ["dedicated"], ["agg", ts], limit])
             nmeta.append((base, len(ts)))
+        # small dense systems under EVERY limit from 1 to 30: a demand step exactly at the end of the busy window together with a limit
+        # between the busy-window length and the fixed point is where per-offset limit handling of the event-source analysis shows
+        for _ in range(ctx.scale(10, 120)):
+            ts = [["rbf", ["sporadic", rng.randint(3, 12), 0] if rng.random() < 0.7 else ["periodic", rng.randint(3, 12)], ["scalar", rng.randint(1, 3)]] for _ in range(rng.randint(1, 3))]
+            for limit in range(1, 31):
+                base = len(qs)
+                qs.append(["fifo", ["agg", ts], limit]); qs.append(["es", ["dedicated"], ["agg", ts], limit])
+                nmeta.append((base, 0))
         smeta = []
         for _ in range(ctx.scale(70, 1500)):
             P = rng.randint(1, 20)
@@ -1215,8 +1246,8 @@ class C19(Prop):
             fifo, es = rows[base + n][1], rows[base + n + 1][1]
             if any(r is None for r in res) or fifo is None: continue
             errs = [r for r in res if r[0] != "ok"]
-            mx = errs[0] if errs else ("ok", max(r[1] for r in res))
-            ctx.oracle("max NP-EDF(equal deadlines)=FIFO", mx == fifo, "largest NP-EDF bound %s vs FIFO %s" % (rta.show(mx), rta.show(fifo)), [rows[base + i][0] for i in range(n + 1)], cls="oracle:agree:npedf_fifo")
+            mx = errs[0] if errs else ("ok", max(r[1] for r in res)) if res else fifo
+            if n > 0: ctx.oracle("max NP-EDF(equal deadlines)=FIFO", mx == fifo, "largest NP-EDF bound %s vs FIFO %s" % (rta.show(mx), rta.show(fifo)), [rows[base + i][0] for i in range(n + 1)], cls="oracle:agree:npedf_fifo")
             ctx.oracle("event_source(dedicated)=FIFO", es == fifo, "event source on a dedicated processor %s vs FIFO %s" % (rta.show(es), rta.show(fifo)), [rows[base + n][0], rows[base + n + 1][0]], cls="oracle:agree:es_fifo")
         for base in smeta:
             a, b, c = rows[base][1], rows[base + 1][1], rows[base + 2][1]
